@@ -1,10 +1,12 @@
 """Sidecar contracts for labella/node.py (C04, C06, C07)."""
 
 TYPES = {
-    "Node": {"idealPos": "real", "currentPos": "real", "width": "real", "data": "ref:Any", "layerIndex": "int",
+    "Node": {"$ghost_lastpos": True, "idealPos": "real", "currentPos": "real", "width": "real", "data": "ref:Item", "layerIndex": "int",
              "parent": "ref:Node", "child": "ref:Node", "overlap": "ref:Any", "overlapCount": "int",
              "x": "real?", "dx": "real?", "y": "real?", "dy": "real?", "w": "real", "h": "real", "targetPos": "real?"},
     "Any": {},
+    # timeline.Item as far as the layout code reads it (Node.data of a timeline's nodes; other callers never read its fields)
+    "Item": {"width": "real", "height": "real", "data": "ref:Any"},
 }
 
 _NODE_FIELDS = ["Node.idealPos", "Node.currentPos", "Node.width", "Node.data", "Node.layerIndex", "Node.parent", "Node.child",
